@@ -313,6 +313,17 @@ def scenarios(tier: str) -> tuple[list[C02Scenario], list[C02Scenario], list[C02
                         dict(id='u1', on='update', script=s1, backoff=3), dict(id='u2', on='update', script=s2, backoff=3)]
             plain.append(C02Scenario(handlers=handlers, lifecycle=lc, user=base_user + [(20.0, 'spec', 'a', 2)], settings=settings, horizon=45.0,
                                      delays=False, early_user=False, time_dev=False))
+    # 9c. a handler with an object-dependent filter that stops matching in mid-cycle (after it has finished / between its retries) and matches
+    # again before the cycle closes: its record is still the record of THIS cycle
+    for lc in ('asap', 'one_by_one', 'all_at_once'):
+        for s_f, s_o in ((['ok'], ['temp', 'ok']), (['temp5', 'ok'], ['temp', 'temp', 'ok']), (['ok'], ['temp', 'temp', 'ok'])):
+            handlers = [dict(id='cf', on='create', script=s_f, when='status.foreign!=1', backoff=3), dict(id='c1', on='create', script=s_o, backoff=3)]
+            for flips in ([(2.0, 'status', 'a', 1), (3.0, 'status', 'a', 2)], [(2.0, 'status', 'a', 1), (5.0, 'status', 'a', 2)], [(1.5, 'status', 'a', 1), (2.5, 'status', 'a', 2), (4.5, 'status', 'a', 1), (5.5, 'status', 'a', 3)]):
+                plain.append(C02Scenario(handlers=handlers, lifecycle=lc, user=base_user + flips, settings=settings, horizon=40.0,
+                                         delays=False, early_user=False, time_dev=False))
+            lab = [dict(id='cf', on='create', script=s_f, labels={'on': 'yes'}, backoff=3), dict(id='c1', on='create', script=s_o, backoff=3)]
+            plain.append(C02Scenario(handlers=lab, lifecycle=lc, user=[(1.0, 'createl', 'a', 'on', 'yes'), (2.0, 'label', 'a', 'on', 'no'), (3.0, 'label', 'a', 'on', 'yes')],
+                                     settings=settings, horizon=40.0, delays=False, early_user=False, time_dev=False))
     # 10. a parent that runs its sub-handlers explicitly (kopf.execute()) and then fails / succeeds on its own, followed by a second cycle
     for sp, sa in itertools.product((['perm'], ['temp', 'perm'], ['arb', 'ok'], ['ok']), (['ok'], ['temp', 'ok'])):
         for lc in ('asap', 'all_at_once'):
